@@ -166,7 +166,9 @@ Definition agree_history (fs : list frame) (cls variant : String.string)
   end.
 
 (* ---- pipelines ----------------------------------------------------------------------- *)
-Inductive rng_kind := KNone | KGenerator | KBitGenerator | KSeedSequence | KSeedLike.
+(* KSeedZero: a supplied seed that is FALSE in a truth test -- the number zero (int 0, numpy.int64(0), ...).  It is a seed
+   like any other; it is a kind of its own because a test `not rng` / `if rng` cannot tell it from "no seed". *)
+Inductive rng_kind := KNone | KGenerator | KBitGenerator | KSeedSequence | KSeedLike | KSeedZero.
 Inductive seed_plan := PlanNoSeed | PlanUseGiven | PlanWrap.
 
 (* what a component receives as options.rng: the caller's object itself, or child number i of
@@ -306,3 +308,75 @@ Definition agree_shape (all_nodes : bool) (plan_of : rng_kind -> seed_plan) (wid
            (spawned_before : nat) (sh : pshape) (obs : list pcall) : bool :=
   list_eqb pcall_eqb (shape_calls all_nodes (plan_of k) width retrain (start_index (plan_of k) spawned_before) sh) obs
   && forallb (fun n => Nat.eqb (count_name (pn_name n) (map pc_name obs)) (expected_count n)) (sh_nodes sh).
+
+(* ---- object lifetimes: what a training can leave behind OUTSIDE the component ---------------- *)
+(* A training history happens in a process where objects come and go.  A dataset OBJECT lives at an address and holds
+   some content; when it is dropped its address is handed to a later object, so the same address can occur again in a
+   history with other content.  `keeps` says whether training remembers anything outside the instance dictionary (it is
+   generated from the source: module-level tables written on a train() path, memoising decorators, id()-keyed tables --
+   `train_keeps_outside` in Gen/C18_frames.v).  The most general such memory is a table from the identity of the data
+   to what was learned from it; with `keeps = false` the table is never consulted and never written. *)
+Record dobj (D : Type) := mkObj { ob_addr : nat; ob_data : D }.
+Arguments mkObj {D}. Arguments ob_addr {D}. Arguments ob_data {D}.
+
+Definition memo (D : Type) := list (nat * D).
+
+Fixpoint memo_get {D : Type} (a : nat) (m : memo D) : option D :=
+  match m with
+  | [] => None
+  | (b, d) :: t => if Nat.eqb a b then Some d else memo_get a t
+  end.
+
+(* the data a training actually learns from, and the table afterwards *)
+Definition data_seen {D : Type} (keeps : bool) (m : memo D) (x : dobj D) : D * memo D :=
+  if keeps then
+    match memo_get (ob_addr x) m with
+    | Some d => (d, m)                                    (* "this object was learned from before" *)
+    | None => (ob_data x, (ob_addr x, ob_data x) :: m)
+    end
+  else (ob_data x, m).
+
+Section Lifetimes.
+  Context {D S : Type}.
+  Variable fit : D -> S -> store -> fitres.
+
+  Definition train_life (keeps : bool) (fr : frame) (x : dobj D) (o : opts S) (cm : store * memo D) : store * memo D :=
+    if guard_holds (fr_guard fr) (fst cm) && negb (o_retrain o) then cm
+    else let dm := data_seen keeps (snd cm) x in (train fit fr (fst dm) o (fst cm), snd dm).
+
+  Fixpoint run_life (keeps : bool) (fr : frame) (h : list (dobj D * opts S)) (cm : store * memo D) : store * memo D :=
+    match h with
+    | [] => cm
+    | (x, o) :: t => run_life keeps fr t (train_life keeps fr x o cm)
+    end.
+
+  (* the fold loop of the lifetime cases: on every dataset object a freshly constructed component is trained first, then
+     the long-lived one; both go through the same table.  Result: (fresh, long-lived) after every fold. *)
+  Fixpoint life_trace (keeps : bool) (fr : frame) (h : list (dobj D * opts S)) (c : store) (m : memo D) : list (store * store) :=
+    match h with
+    | [] => []
+    | (x, o) :: t =>
+        let f1 := train_life keeps fr x o ([], m) in
+        let l1 := train_life keeps fr x o (c, snd f1) in
+        (fst f1, fst l1) :: life_trace keeps fr t (fst l1) (snd l1)
+    end.
+
+  Definition contents (h : list (dobj D * opts S)) : list (D * opts S) := map (fun xo => (ob_data (fst xo), snd xo)) h.
+End Lifetimes.
+
+(* correspondence: sampled folds of a lifetime loop.  steps: (address class of the fold's dataset object, store of the
+   reference object of the fold); every call retrains.  obs_long / obs_fresh: what the long-lived / the freshly constructed
+   object of the lifetime pass held after the fold. *)
+Definition agree_life (keeps : bool) (fs : list frame) (cls variant : String.string)
+           (steps : list (nat * store)) (obs_long obs_fresh : list store) : bool :=
+  match find_frame fs cls variant with
+  | None => false
+  | Some fr =>
+      frame_ok fr
+      && forallb (fun s => subset (map fst (snd s)) (fr_wmust fr) && subset (fr_wmust fr) (map fst (snd s))) steps
+      && (let h := map (fun s => (mkObj (fst s) (snd s), mkOpts true tt)) steps in
+          let tr := life_trace fit_of_fresh keeps fr h [] [] in
+          Nat.eqb (length tr) (length obs_long) && Nat.eqb (length tr) (length obs_fresh)
+          && forallb (fun p => store_eqb (snd (fst p)) (snd p)) (combine tr obs_long)
+          && forallb (fun p => store_eqb (fst (fst p)) (snd p)) (combine tr obs_fresh))
+  end.
